@@ -804,3 +804,6 @@ func (p *Proc) Revive() {
 }
 
 func (p *Proc) Obs() uint64 { return p.obs }
+
+// Unlink removes a name directly (an operator's action between runs; not attributed to any process).
+func (w *World) Unlink(name string) { delete(w.names, name) }
